@@ -343,8 +343,12 @@ func H_C10_secondfile() {
 	pa, pb, pc := dir+"/a.snap", dir+"/b.snap", dir+"/c.snap"
 	clean := vxFrame("TestB - 1", "x") + vxFrame("TestB - 2", "y")
 	vxWriteFile(pb, clean)
-	needs := vxrt.Choice("what-the-other-files-need", 4)
+	needs := vxrt.Choice("what-the-other-files-need", 5)
 	switch needs {
+	case 4: // one test records into the first and the last file; the first needs nothing, in the last
+		// its second entry is stale (it only makes one call there now)
+		vxWriteFile(pa, vxFrame("TestX - 1", "a1")+vxFrame("TestX - 2", "a2"))
+		vxWriteFile(pc, vxFrame("TestX - 1", "c1")+vxFrame("TestX - 2", "stale"))
 	case 3: // the earlier file holds only stale entries, one of them with an id that is live in the
 		// last file, which has to be rewritten because of a stale entry of its own
 		vxWriteFile(pa, vxFrame("TestC - 1", "stale here")+vxFrame("TestGone - 1", "stale"))
@@ -364,12 +368,19 @@ func H_C10_secondfile() {
 	if needs == 3 {
 		reg = map[string]map[string]int{pa: {}, pb: {"TestB": 2}, pc: {"TestC": 1}}
 	}
+	if needs == 4 {
+		reg = map[string]map[string]int{pa: {"TestX": 2}, pb: {"TestB": 2}, pc: {"TestX": 1}}
+	}
 	order := []string{pa, pb, pc}
 	if needs == 3 {
 		order = []string{pa, pc, pb} // the rewritten file directly follows the all-stale one
 	}
-	obsolete, err := examineSnaps(reg, order, "", 1, needs == 0 || needs == 3, needs == 1)
+	obsolete, err := examineSnaps(reg, order, "", 1, needs == 0 || needs >= 3, needs == 1)
 	vxrt.Assert(err == nil, "C10:examine-succeeds")
+	if needs == 4 {
+		vxrt.Assert(len(obsolete) == 1 && vxReadFile(pc) == vxFrame("TestX - 1", "c1"), "C10:no-duplicate-no-residue")
+		vxrt.Assert(vxReadFile(pa) == vxFrame("TestX - 1", "a1")+vxFrame("TestX - 2", "a2"), "C10:file-needing-nothing-is-not-written")
+	}
 	if needs == 3 {
 		vxrt.Assert(len(obsolete) == 3 && vxReadFile(pc) == vxFrame("TestC - 1", "c"), "C10:no-duplicate-no-residue")
 	}
@@ -390,7 +401,18 @@ func H_C10_both() {
 	reg := map[string]map[string]int{path: {"TestA": 10, "TestB": 1}}
 	want := fa + f10 + fb
 	var content string
-	switch vxrt.Choice("stale-position", 5) {
+	emptyBody := false
+	switch vxrt.Choice("stale-position", 7) {
+	case 6: // a live entry without any body line (it replays as the empty text) next to a stale one
+		fe := "\n[TestE - 1]\n---\n"
+		content = fb + fe + fold + fa
+		reg = map[string]map[string]int{path: {"TestA": 10, "TestB": 1, "TestE": 1}}
+		emptyBody = true
+	case 5: // a test that now makes two calls; its stale third entry is stored before the second
+		s1, s2, s3 := vxFrame("TestS - 1", "s1"), vxFrame("TestS - 2", "s2"), vxFrame("TestS - 3", "stale")
+		content = s1 + s3 + s2
+		reg = map[string]map[string]int{path: {"TestS": 2}}
+		want = s1 + s2
 	case 4: // live M, stale C, live D: the stale entry is in order with what follows it, the survivors are not
 		fm, fd := vxFrame("TestM - 1", "m"), vxFrame("TestD - 1", "d")
 		content = fm + vxFrame("TestC - 1", "stale") + fd
@@ -412,6 +434,16 @@ func H_C10_both() {
 	vxWriteFile(path, content)
 	obsolete, err := examineSnaps(reg, []string{path}, "", 1, true, true)
 	vxrt.Assert(err == nil && len(obsolete) == 1, "C10:examine-succeeds")
+	if emptyBody {
+		// the survivors, the one with the empty body included, are all still there with their values
+		for id, v := range map[string]string{"TestA - 2": "a2", "TestB - 1": "b", "TestE - 1": ""} {
+			got, _, err := vxRefPrev("["+id+"]", path)
+			vxrt.Assert(err == nil && got == v, "C10:survivor-value-unchanged")
+		}
+		_, _, err := vxRefPrev("[TestOld - 1]", path)
+		vxrt.Assert(err != nil, "C10:stale-entry-removed")
+		return
+	}
 	vxrt.Assert(vxReadFile(path) == want, "C10:sorted-in-natural-order")
 	stamp := vxrt.FSStamp()
 	_, err = examineSnaps(reg, []string{path}, "", 1, true, true)
@@ -435,7 +467,12 @@ func H_C10_ext() {
 	dir := vxrt.Dir() + "/__snapshots__"
 	ext := []string{".txt", ".snap.bak", "x"}[vxrt.Choice("ext", 3)]
 	path := dir + "/f_test.snap" + ext
-	vxWriteFile(path, vxFrame("TestB - 1", "b")+vxFrame("TestGone - 1", "stale")+vxFrame("TestA - 1", "a"))
+	if vxrt.Bool("file-already-in-order") {
+		// nothing to sort, but in clean mode the stale entry still goes
+		vxWriteFile(path, vxFrame("TestA - 1", "a")+vxFrame("TestB - 1", "b")+vxFrame("TestGone - 1", "stale"))
+	} else {
+		vxWriteFile(path, vxFrame("TestB - 1", "b")+vxFrame("TestGone - 1", "stale")+vxFrame("TestA - 1", "a"))
+	}
 	vxrt.TestSources(vxrt.Dir()+"/f_test.go", "TestA", "TestB")
 	c := WithConfig(Dir(dir), Filename("f_test"), Ext(ext), Update(false))
 	for _, n := range []string{"TestB", "TestA"} {
